@@ -325,14 +325,7 @@ fn check_sweep_total(case: &Value, obs: &mut Obs) -> Result<(), String> {
     }
     // the public helpers see the same sequence of strings
     let strings: Vec<String> = (0..w).chain(0..w).chain(w..w + 1).chain(0..=w).map(|k| format!("{}", 1000 + k)).collect();
-    let r = imp::guarded(|| {
-        for s in &strings {
-            let _ = jsonlogic_rs::js_op::str_to_number(s);
-            let _ = jsonlogic_rs::js_op::parse_float(&json!(format!("{}px", s)));
-            let _ = jsonlogic_rs::js_op::to_number(&json!(s));
-        }
-        let _ = jsonlogic_rs::js_op::str_to_number("0x10");
-    });
+    let r = imp::guarded(|| crate::helpers::string_conversions(&strings));
     if let Err(m) = r {
         return Err(format!("a public js_op helper panicked ({}) during a working-set sweep with {} hot strings", m, w));
     }
@@ -353,39 +346,15 @@ fn fixed_sweeps_total() -> Vec<Value> {
 // ------------------------------------------------------------------------------------------------ public helpers
 
 fn check_helpers(case: &Value, obs: &mut Obs) -> Result<(), String> {
-    use jsonlogic_rs::js_op as h;
     let a = case["a"].clone();
     let b = case["b"].clone();
     let list: Vec<Value> = case["list"].as_array().cloned().unwrap_or_default();
     let s = case["a"].as_str().unwrap_or("").to_string();
-    let r = imp::guarded(|| {
-        let refs: Vec<&Value> = list.iter().collect();
-        let _ = h::to_string(&a);
-        let _ = h::str_to_number(&s);
-        let _ = h::str_to_number(h::to_string(&b));
-        let _ = h::to_number(&a);
-        let _ = h::parse_float(&a);
-        let _ = h::abstract_eq(&a, &b);
-        let _ = h::abstract_ne(&a, &b);
-        let _ = h::abstract_lt(&a, &b);
-        let _ = h::abstract_gt(&a, &b);
-        let _ = h::abstract_lte(&a, &b);
-        let _ = h::abstract_gte(&a, &b);
-        let _ = h::strict_eq(&a, &b);
-        let _ = h::strict_ne(&a, &b);
-        let _ = h::strict_eq(&a, &a);
-        let _ = h::abstract_plus(&a, &b);
-        let _ = h::abstract_minus(&a, &b);
-        let _ = h::abstract_div(&a, &b);
-        let _ = h::abstract_mod(&a, &b);
-        let _ = h::abstract_max(&refs);
-        let _ = h::abstract_min(&refs);
-        let _ = h::parse_float_add(&refs);
-        let _ = h::parse_float_mul(&refs);
-        let _ = h::to_negative(&a);
-        // the plus helper's result must be a JSON value that serialises
-        h::abstract_plus(&a, &b).to_string()
-    });
+    if !crate::helpers::AVAILABLE {
+        obs.skip("helper API not available in this build");
+        return Ok(());
+    }
+    let r = imp::guarded(|| crate::helpers::all(&a, &b, &list, &s));
     obs.evals += 24;
     match r {
         Ok(_) => {}
